@@ -858,6 +858,7 @@ pub fn worker(w: &mut WorkerCtx) {
     {
         let (beat, current) = (beat.clone(), current.clone());
         let limit = w.tier.pick(10u64, 30u64);
+        let main_tid = crate::common::par::my_tid();
         std::thread::spawn(move || {
             let mut last = (u64::MAX, std::time::Instant::now());
             loop {
@@ -866,6 +867,11 @@ pub fn worker(w: &mut WorkerCtx) {
                 if b != last.0 {
                     last = (b, std::time::Instant::now());
                 } else if last.1.elapsed().as_secs() > limit {
+                    // stuck, or only starved of CPU on a loaded machine?
+                    if !crate::common::par::confirm_stuck(main_tid, std::time::Duration::from_secs(limit), &|| beat.load(std::sync::atomic::Ordering::Relaxed) == b) {
+                        last = (u64::MAX, std::time::Instant::now());
+                        continue;
+                    }
                     let c = current.lock().map(|x| x.clone()).unwrap_or_default();
                     let v = J::obj([("sig", J::s("hang · no progress within the time limit")), ("n", J::i(1)), ("detail", J::s(format!("worker stuck for > {} s in configuration {}", limit, c))), ("case", J::s(&c))]);
                     println!("V\t{}\nDONE", v.to_string());
